@@ -31,8 +31,14 @@ def generate(rng, tier, idx):
         enum["main_variant"] = mv
     ops.append(enum)
     sites = kit.sites(K)
-    for _ in range(rng.randint(1, 4)):
-        p, h = kit.poison(pick(rng, sites))
+    # type-confusion values (a set / tuple / bytes where a list / text is documented) are the ones most likely to slip past
+    # a shallow check and blow up late: half of the picks are biased towards them
+    CONTAINER_FIELDS = ("additional_variants", "checksums", "arches", "disc_numbers", "platforms")
+    confused = [x for x in sites if isinstance(x.get("bad"), dict) and len(x["bad"]) == 1 and list(x["bad"].keys())[0] in ("__set__", "__tuple__", "__bytes__")
+                and x.get("field") in CONTAINER_FIELDS]
+    for _ in range(rng.randint(6, 12) if tier == "quick" else rng.randint(20, 40)):
+        site = pick(rng, confused) if confused and rng.random() < 0.5 else pick(rng, sites)
+        p, h = kit.poison(site)
         ops.append(kit.mutation(K, rng))
         ops.append(p)
         ops.append(kit.dump_op(K, rng, main_variant="random"))
